@@ -12,6 +12,7 @@ and receivers, arbitrary time stamps (equal, decreasing, far apart) unless `Mono
 every window length `w` (0 included) and every decodability predicate.
 -/
 import Rs1090.Proofs.DedupSpec
+import Rs1090.Model.Decode.Message
 namespace Rs1090.Props.C10
 open Rs1090 Rs1090.Dedup
 open Rs1090.Spec.Dedup (firstT closes WellFormed members recordOf records before Monotone Spaced
@@ -357,5 +358,22 @@ theorem members_within_window (w : Nat) (s : State) (a : Arrival) (h : Inv w s)
   rcases this (fun x hx => (h.wf x hx).1) hb g hg' m hm with rfl | h1
   · exact hopen
   · exact h1
+
+/-! ### composed with the decoder model
+
+jet1090 emits a group only when `Message::from_bytes` succeeds on its frame.  Instantiating the
+decodability predicate with the decoder model (`Message.fromBytes`, proved total in C01) gives the
+statements for the real pipeline stage; the driver checks on every run that the harness's decodability
+flags are exactly this predicate. -/
+
+/-- decodability as the pipeline decides it -/
+def decodable (f : Frame) : Bool := (Rs1090.Model.Message.fromBytes f).isOk
+
+theorem pipeline_conservation (w : Nat) (hist : List Arrival) :
+    hist.Perm
+      (members ((runG w init hist).2.filter (fun g => decodable g.1)) ++
+       members ((runG w init hist).2.filter (fun g => !decodable g.1)) ++
+       pending (run w decodable init hist).1) :=
+  conservation w decodable hist
 
 end Rs1090.Props.C10
